@@ -5,9 +5,10 @@
 use fbh::gal::*;
 use fbh::mapmodel::*;
 use fbh::prng::Rng;
-use fbh::report::{guarded, Report};
+use fbh::report::{crumb, guarded, Report};
 use fbh::Ctx;
 use quill::tree::mappings::Mappings;
+use quill::tree::names::Namespace;
 use std::collections::{BTreeSet, HashMap, HashSet};
 use std::hash::Hash;
 use std::panic::AssertUnwindSafe;
@@ -493,7 +494,66 @@ fn overlap_profile(a: &MMappings, b: &MMappings) -> [bool; 12] {
 	p
 }
 
+/// relation of the key sets of two corresponding maps (keys are unique within each)
+fn key_rel<K: PartialEq>(ka: &[K], kb: &[K]) -> &'static str {
+	let shared = ka.iter().filter(|k| kb.contains(k)).count();
+	match (ka.len(), kb.len()) {
+		(0, 0) => "both empty",
+		(0, _) => "A empty, B not",
+		(_, 0) => "B empty, A not",
+		(la, lb) if shared == la && la == lb => "equal (non-empty)",
+		(la, _) if shared == la => "A non-empty strict subset of B",
+		(_, lb) if shared == lb => "B non-empty strict subset of A",
+		_ if shared == 0 => "disjoint (both non-empty)",
+		_ => "partial overlap (each side has own keys)",
+	}
+}
+/// which key-set relations occur, per level, between corresponding maps (the two class maps; the field / method maps
+/// of a class both sides have; the parameter maps of a method both sides have), and which combinations of
+/// first-namespace names occur on a parameter both sides have
+fn relations(a: &MMappings, b: &MMappings) -> BTreeSet<String> {
+	let mut out = BTreeSet::new();
+	out.insert(format!("keyrel:class:{}", key_rel(&a.classes.iter().map(ckey).collect::<Vec<_>>(), &b.classes.iter().map(ckey).collect::<Vec<_>>())));
+	for ca in &a.classes {
+		let Some(cb) = b.classes.iter().find(|c| ckey(c) == ckey(ca)) else { continue };
+		out.insert(format!("keyrel:field:{}", key_rel(&ca.fields.iter().map(fkey).collect::<Vec<_>>(), &cb.fields.iter().map(fkey).collect::<Vec<_>>())));
+		out.insert(format!("keyrel:method:{}", key_rel(&ca.methods.iter().map(mkey).collect::<Vec<_>>(), &cb.methods.iter().map(mkey).collect::<Vec<_>>())));
+		for ma in &ca.methods {
+			let Some(mb) = cb.methods.iter().find(|m| mkey(m) == mkey(ma)) else { continue };
+			out.insert(format!("keyrel:parameter:{}", key_rel(&ma.params.iter().map(pkey).collect::<Vec<_>>(), &mb.params.iter().map(pkey).collect::<Vec<_>>())));
+			for pa in &ma.params {
+				let Some(pb) = mb.params.iter().find(|p| p.index == pa.index) else { continue };
+				out.insert(format!("param-first-name on a shared parameter:{}", match (&pa.names[0], &pb.names[0]) {
+					(Some(x), Some(y)) if x == y => "both present, equal",
+					(Some(_), Some(_)) => "both present, DIFFERENT (conflict)",
+					(Some(_), None) => "A present, B absent (conflict)",
+					(None, Some(_)) => "A absent, B present (conflict)",
+					(None, None) => "both absent",
+				}));
+			}
+		}
+	}
+	out
+}
+/// columns a and b exchanged (namespaces, every names row)
+fn swap_ab(m: &MMappings) -> MMappings {
+	let sw = |n: &NamesRow| -> NamesRow { if n.len() == 3 { vec![n[0].clone(), n[2].clone(), n[1].clone()] } else { n.clone() } };
+	let mut m = m.clone();
+	if m.ns.len() == 3 { m.ns.swap(1, 2); }
+	for c in &mut m.classes {
+		c.names = sw(&c.names);
+		for f in &mut c.fields { f.names = sw(&f.names); }
+		for me in &mut c.methods { me.names = sw(&me.names); for p in &mut me.params { p.names = sw(&p.names); } }
+	}
+	m
+}
+fn has_empty_name(m: &MMappings) -> bool {
+	let e = |n: &NamesRow| n.iter().any(|o| o.as_ref().is_some_and(|s| s.is_empty()));
+	m.ns.iter().any(|s| s.is_empty()) || m.classes.iter().any(|c| e(&c.names) || c.fields.iter().any(|f| e(&f.names)) || c.methods.iter().any(|me| e(&me.names) || me.params.iter().any(|p| e(&p.names))))
+}
+
 fn through(r: &mut Report, stream: &str, a: &MMappings, b: &MMappings) {
+	crumb(&format!("property C09 (Mappings::merge)\nthe harness process died inside (or right after) Mappings::merge(A, B) / merge(B, A)\n--- A (namespaces s, a)\n{}--- B (namespaces s, b)\n{}--- Gallina\nA := {}\nB := {}\n", dump(a), dump(b), g_mappings(a), g_mappings(b)));
 	let (got, desync) = match impl_merge(a, b) {
 		Ok(x) => x,
 		Err(e) => { r.count("generator_rejected"); r.notes.push(format!("{stream}: generated pair not constructible: {e:#}")); return; }
@@ -511,6 +571,7 @@ fn through(r: &mut Report, stream: &str, a: &MMappings, b: &MMappings) {
 	if (0..4).all(|l| (0..3).all(|s| prof[l * 3 + s])) { r.count("overlap:all-three-kinds-at-all-four-levels"); }
 	for k in cf.iter().collect::<BTreeSet<_>>() { r.count(&format!("conflict:{k}")); }
 	for k in empty_doc_pairs(a, b) { r.count(k); }
+	for k in relations(a, b) { r.count(&k); }
 
 	match &got {
 		Err(p) => { r.count("result:panic"); vio(r, format!("Mappings::merge panicked: {p}"), a, b, "panic"); }
@@ -553,6 +614,43 @@ fn through(r: &mut Report, stream: &str, a: &MMappings, b: &MMappings) {
 			if rb != *b { r.count("restrict_b:order differs from B"); } else { r.count("restrict_b:same order as B"); }
 		}
 	}
+	// commutation: merge(B, A) is merge(A, B) with the columns a and b exchanged (up to the order of entries), and fails
+	// exactly when merge(A, B) fails (C09_merge_comm)
+	match impl_merge(b, a) {
+		Err(_) => r.count("generator_rejected"),
+		Ok((ba, _)) => {
+			r.evaluations += 1;
+			let same = match (&got, &ba) {
+				(Ok(None), Ok(None)) => { r.count("commutation:both Err"); true }
+				(Ok(Some(m)), Ok(Some(m2))) => {
+					r.count("commutation:both Ok");
+					// the same through the real reorder (C09_merge_comm_via_reorder): merge(A, B) reordered to (s, b, a) is merge(B, A)
+					let names: Vec<String> = [0usize, 2, 1].iter().map(|&i| m.ns[i].iter().filter_map(|&c| char::from_u32(c)).collect()).collect();
+					if m.ns[1] != m.ns[2] && m.ns[0] != m.ns[1] && m.ns[0] != m.ns[2] {   // reorder addresses namespaces by name: they must be distinct
+						match to_quill::<3, NsAny>(m) {
+							Ok(q3) => match guarded(AssertUnwindSafe(|| q3.reorder::<NsAny>([names[0].as_str(), names[1].as_str(), names[2].as_str()]).ok())) {
+								Ok(Some(re)) => {
+									let mut d = vec![];
+									r.count("commutation:merge(A,B) reordered to (s,b,a) compared with merge(B,A)");
+									if !from_quill(&re, &mut d).equiv(m2) { vio(r, "merge(A, B) reordered to the namespaces (s, b, a) is not merge(B, A) (compared up to the order of entries)".into(), a, b, &format!("merge(A, B):\n{}--- merge(B, A):\n{}", dump(m), dump(m2))); }
+								}
+								Ok(None) => r.count("commutation:reorder of the merged set to (s,b,a) returned Err (a descriptor does not scan)"),
+								Err(p) => vio(r, format!("reorder of the merged set panicked: {p}"), a, b, &dump(m)),
+							},
+							Err(e) => vio(r, format!("the merged set is not a well-formed mapping set: {e}"), a, b, &dump(m)),
+						}
+					}
+					swap_ab(m2).equiv(m)
+				}
+				(_, Err(p)) => { vio(r, format!("Mappings::merge(B, A) panicked: {p}"), a, b, "panic"); true }
+				_ => false,
+			};
+			if !same {
+				let shown = |x: &Result<Option<MMappings>, String>| match x { Ok(Some(m)) => dump(m), Ok(None) => "Err\n".to_string(), Err(p) => format!("panic {p}\n") };
+				vio(r, "merge(A, B) and merge(B, A) differ by more than the exchange of the columns a and b (compared up to the order of entries; Err must go with Err)".into(), a, b, &format!("merge(A, B):\n{}--- merge(B, A):\n{}", shown(&got), shown(&ba)));
+			}
+		}
+	}
 	if let Ok(g) = &got {
 		// small cases verbatim (readable samples), the rest through the string table
 		if a.size() + b.size() <= 6 { r.case(stream, format!("CMerge {} {} {}", g_mappings(a), g_mappings(b), gres(g.as_ref().map(g_mappings)))); }
@@ -560,10 +658,77 @@ fn through(r: &mut Report, stream: &str, a: &MMappings, b: &MMappings) {
 	}
 }
 
+/// Through quill's PUBLIC API (`Names::change_name`, `Mappings::rename_namespaces` - neither checks for emptiness) put an
+/// EMPTY name into the second column of the first class / field / method / parameter (level 1..4) or make the second
+/// namespace name empty (level 0); the mirror `m` is changed in the same place.  None when there is no such entry.
+fn poke_empty<Ns>(mut q: Mappings<2, Ns>, m: &mut MMappings, level: usize) -> Option<Mappings<2, Ns>> {
+	let ns1 = Namespace::<2>::new(1).ok()?;
+	let empty: S = vec![];
+	match level {
+		0 => {
+			let (n0, n1) = (m.ns[0].iter().map(|&c| char::from_u32(c)).collect::<Option<String>>()?, m.ns[1].iter().map(|&c| char::from_u32(c)).collect::<Option<String>>()?);
+			q = q.rename_namespaces([n0.as_str(), n1.as_str()], [n0.as_str(), ""]).ok()?;
+			m.ns[1] = empty;
+		}
+		1 => {
+			let (_, c) = q.classes.get_index_mut(0)?;
+			let old = <&[Option<_>; 2]>::from(&c.info.names)[1].clone();
+			c.info.names.change_name(ns1, old.as_ref(), Some(&class_name(&empty))).ok()?;
+			m.classes[0].names[1] = Some(empty);
+		}
+		2 => {
+			let ci = m.classes.iter().position(|c| !c.fields.is_empty())?;
+			let (_, c) = q.classes.get_index_mut(ci)?;
+			let (_, f) = c.fields.get_index_mut(0)?;
+			let old = <&[Option<_>; 2]>::from(&f.info.names)[1].clone();
+			f.info.names.change_name(ns1, old.as_ref(), Some(&field_name(&empty))).ok()?;
+			m.classes[ci].fields[0].names[1] = Some(empty);
+		}
+		_ => {
+			let want_param = level >= 4;
+			let ci = m.classes.iter().position(|c| c.methods.iter().any(|me| !want_param || !me.params.is_empty()))?;
+			let mi = m.classes[ci].methods.iter().position(|me| !want_param || !me.params.is_empty())?;
+			let (_, c) = q.classes.get_index_mut(ci)?;
+			let (_, me) = c.methods.get_index_mut(mi)?;
+			if want_param {
+				let (_, p) = me.parameters.get_index_mut(0)?;
+				let old = <&[Option<_>; 2]>::from(&p.info.names)[1].clone();
+				p.info.names.change_name(ns1, old.as_ref(), Some(&param_name(&empty))).ok()?;
+				m.classes[ci].methods[mi].params[0].names[1] = Some(empty);
+			} else {
+				let old = <&[Option<_>; 2]>::from(&me.info.names)[1].clone();
+				me.info.names.change_name(ns1, old.as_ref(), Some(&method_name(&empty))).ok()?;
+				m.classes[ci].methods[mi].names[1] = Some(empty);
+			}
+		}
+	}
+	Some(q)
+}
+
+/// the entries (level 0: classes, 1: fields, 2: methods, 3: parameters) with the keys `idx` out of a universe of four,
+/// hosted in the class `rel/Host` (levels 1..3) and its method `host(IJ)V` (level 3), which both sides then share
+fn rel_entries(rng: &mut Rng, level: usize, idx: &[usize], docs: bool) -> Vec<MClass> {
+	let doc = |rng: &mut Rng| if docs && rng.chance(1, 3) { Some(cps_str(*rng.pick(&DOCS[..]))) } else { None };
+	let mut host = MClass { names: vec![Some(cps_str("rel/Host")), second(rng, &CLS2)], doc: doc(rng), fields: vec![], methods: vec![] };
+	match level {
+		0 => return idx.iter().map(|i| MClass { names: vec![Some(cps_str(&format!("rel/K{i}"))), second(rng, &CLS2)], doc: doc(rng),
+			fields: vec![MField { desc: cps_str("I"), names: vec![Some(cps_str("only")), second(rng, &MEM2)], doc: None }], methods: vec![] }).collect(),
+		1 => for i in idx { host.fields.push(MField { desc: cps_str(if i % 2 == 0 { "I" } else { "Lrel/Host;" }), names: vec![Some(cps_str(&format!("fk{}", i / 2))), second(rng, &MEM2)], doc: doc(rng) }); },
+		2 => for i in idx { host.methods.push(MMeth { desc: cps_str(if i % 2 == 0 { "(I)V" } else { "()Lrel/Host;" }), names: vec![Some(cps_str(&format!("mk{}", i / 2))), second(rng, &MEM2)], doc: doc(rng), params: vec![] }); },
+		_ => {
+			let mut me = MMeth { desc: cps_str("(IJ)V"), names: vec![Some(cps_str("host")), second(rng, &MEM2)], doc: doc(rng), params: vec![] };
+			// the shared first name of a parameter is fixed by its index (present for even, absent for odd indices)
+			for i in idx { me.params.push(MParam { index: *i as u64, names: vec![if i % 2 == 0 { Some(cps_str(&format!("q{i}"))) } else { None }, second(rng, &PAR2)], doc: doc(rng) }); }
+			host.methods.push(me);
+		}
+	}
+	vec![host]
+}
+
 pub fn run(ctx: &Ctx) -> anyhow::Result<Report> {
 	let mut r = Report::new("C09", "C09.Run");
 	let mut rng = Rng::new(ctx.seed);
-	r.rule = "pairs (A over (s,a), B over (s,b)): A from the shared mapping-set generator; B derived from A's source keys (each class/field/method/parameter kept with new b-name and own comment, dropped, or added from an independent set; B's order shuffled). Comments include the empty comment Some(\"\") on either or both sides (against absent, empty and text). Streams: clean (all conflicts removed), one injected conflict of each documented kind (first namespace - an unrelated name, or B's namespaces a permutation of / overlapping with A's: (s,a)x(a,s), (s,a)x(b,s), (s,a)x(a,b), (s,s)x(b,s); comment at top/class/field/method/parameter level, the two comments differing by suffix, prefix, emptiness, trailing blank, one character, truncation or entirely; parameter first name different / absent on one side), namespaces (all 81 assignments of three names to the four namespace positions on pairs that otherwise merge: Err exactly when the FIRST namespaces differ), raw (whatever the derivation produced), edge pairs (empty, identical, disjoint), the repository's fixture (VERIF_REPO; a note if missing). Every pair goes through Mappings::merge, an independent reference join, the key-union, column, projection and error-iff-conflict oracles - all compared up to the order of entries, the property promises no iteration order - and into Coq as a CMerge case (exact comparison incl. order: there the model follows the code, and an order difference is a model/implementation disagreement, not a property violation). Non-trivial: at least one entry in A or B; distinct by (A,B).".into();
+	r.rule = "pairs (A over (s,a), B over (s,b)): A from the shared mapping-set generator; B derived from A's source keys (each class/field/method/parameter kept with new b-name and own comment, dropped, or added from an independent set; B's order shuffled). Comments include the empty comment Some(\"\") on either or both sides (against absent, empty and text). Streams: clean (all conflicts removed), one injected conflict of each documented kind (first namespace - an unrelated name, or B's namespaces a permutation of / overlapping with A's: (s,a)x(a,s), (s,a)x(b,s), (s,a)x(a,b), (s,s)x(b,s); comment at top/class/field/method/parameter level, the two comments differing by suffix, prefix, emptiness, trailing blank, one character, truncation or entirely; parameter first name different / absent on one side), namespaces (all 81 assignments of three names to the four namespace positions on pairs that otherwise merge: Err exactly when the FIRST namespaces differ), raw (whatever the derivation produced), edge pairs (empty, identical, disjoint), the repository's fixture (VERIF_REPO; a note if missing). Further streams: relations (every relation between the key sets of two corresponding maps - both empty, one empty, equal, A a non-empty strict subset of B, B of A, disjoint, partial overlap - constructed at each of the four levels, alone and inside generated surroundings), empty-name (hypothesis-violating: an empty name Some(\"\") in a second column or an empty second namespace name, put in through the public Names::change_name / rename_namespaces; merge must refuse, and no result may contain an empty name; compared with the model without the wf2 guard, CMergeRaw). Every pair goes through Mappings::merge, an independent reference join, the commutation oracle (merge(B,A) = merge(A,B) with columns a/b exchanged up to order, Err with Err; and the real reorder of merge(A,B) to (s,b,a) = merge(B,A)), the key-union, column, projection and error-iff-conflict oracles - all compared up to the order of entries, the property promises no iteration order - and into Coq as a CMerge case (exact comparison incl. order: there the model follows the code, and an order difference is a model/implementation disagreement, not a property violation). Non-trivial: at least one entry in A or B; distinct by (A,B).".into();
 
 	// 0. the repository's own fixture
 	{
@@ -667,6 +832,76 @@ pub fn run(ctx: &Ctx) -> anyhow::Result<Report> {
 			Ok(None) => r.count("desync:refused"),
 			Ok(Some(_)) => vio(&mut r, format!("a node of B whose {t} disagrees with its IndexMap key was merged without error (merge_equal arm)"), &a, &a, "Ok"),
 			Err(p) => vio(&mut r, format!("merge panicked on a desynchronised {t}: {p}"), &a, &a, "panic"),
+		}
+	}
+
+	// key-set relations: every relation between the key sets of two corresponding maps (both empty, one side empty,
+	// equal, A a non-empty strict subset of B, B of A, disjoint, partial overlap) at each of the four levels (the class
+	// maps; the field / method maps of a class both sides have; the parameter maps of a method both sides have) -
+	// alone (variant 0) and inside randomly generated surroundings; conflicts removed, so every pair merges
+	{
+		let mut rg = rng.fork(0x52454c);
+		const RELS: [(&[usize], &[usize]); 8] = [(&[], &[]), (&[], &[0, 1]), (&[0, 1], &[]), (&[0, 1], &[1, 0]), (&[1], &[0, 1, 2]), (&[0, 1, 2], &[2]), (&[0, 1], &[2, 3]), (&[0, 1], &[1, 2])];
+		let variants = if ctx.thorough { 10 } else { 3 };
+		for level in 0..4usize { for (ia, ib) in RELS { for v in 0..variants {
+			let mut cfg = GenCfg::new(2); cfg.max_classes = 3; cfg.max_members = 3;
+			let (mut a, mut b) = if v == 0 {
+				(MMappings { ns: vec![cps_str("official"), cps_str("intermediary")], doc: None, classes: vec![] }, MMappings { ns: vec![cps_str("official"), cps_str("named")], doc: None, classes: vec![] })
+			} else { let a = gen_mappings(&mut rg, &cfg); let b = derive_b(&mut rg, &a, &cfg); (a, b) };
+			let (ea, eb) = (rel_entries(&mut rg, level, ia, v != 1), rel_entries(&mut rg, level, ib, v != 1));
+			for c in ea { let at = rg.below(a.classes.len() + 1); a.classes.insert(at, c); }
+			for c in eb { let at = rg.below(b.classes.len() + 1); b.classes.insert(at, c); }
+			sanitize(&mut rg, &a, &mut b);
+			r.count(&format!("relations-stream:level {}:{}", ["class", "field", "method", "parameter"][level], key_rel(ia, ib)));
+			through(&mut r, "relations", &a, &b);
+		} } }
+	}
+
+	// hypothesis-violating stream: an EMPTY name (Some("")) in the second column of a class / field / method / parameter,
+	// or an empty second namespace name, on one side - reachable through the public API (Names::change_name and
+	// Mappings::rename_namespaces do not check), outside wf2.  merge_names / merge_namespaces rebuild the rows with the
+	// checking constructors (tree/mod.rs: Names::try_from, Namespaces::try_from), so merge must refuse; in no case may the
+	// result contain an empty name.  Compared with the model WITHOUT the wf2 guard (CMergeRaw).
+	{
+		let mut rg = rng.fork(0x454d50);
+		for i in 0..(if ctx.thorough { 300 } else { 80 }) {
+			let mut cfg = GenCfg::new(2); cfg.max_classes = 3; cfg.max_members = 3;
+			let mut a = gen_mappings(&mut rg, &cfg);
+			let mut b = derive_b(&mut rg, &a, &cfg);
+			sanitize(&mut rg, &a, &mut b);
+			let (on_a, level) = (i % 2 == 0, i / 2 % 5);
+			let (Ok(qa), Ok(qb)) = (to_quill::<2, (NsS, NsA)>(&a), to_quill::<2, (NsS, NsB)>(&b)) else { continue };
+			// what this stream relies on: the editing API cannot touch the FIRST column (the keys stay the keys of the
+			// nodes), refuses an edit whose `from` is not the current name, and there is no namespace index 2 of 2
+			if i < 10 {
+				let mut q = qa.clone();
+				if let Some((_, c)) = q.classes.get_index_mut(0) {
+					let cur = <&[Option<_>; 2]>::from(&c.info.names).clone();
+					let other = class_name(&cps_str("some/Other"));
+					let first = Namespace::<2>::new(0).ok().map(|n0| c.info.names.change_name(n0, cur[0].as_ref(), Some(&other)).is_err());
+					let wrong = Namespace::<2>::new(1).ok().map(|n1| c.info.names.change_name(n1, Some(&class_name(&cps_str("not/The/Current/Name"))), Some(&other)).is_err());
+					let unchanged = <&[Option<_>; 2]>::from(&c.info.names).clone() == cur;
+					r.evaluations += 1;
+					if first != Some(true) || wrong != Some(true) || !unchanged { vio(&mut r, format!("Names::change_name: editing the first column refused = {first:?}, edit with a wrong `from` refused = {wrong:?}, row unchanged = {unchanged}"), &a, &b, "-"); }
+				}
+				let renamed_wrong = qa.clone().rename_namespaces(["not", "these"], ["x", "y"]).is_err();
+				if Namespace::<2>::new(2).is_ok() || !renamed_wrong { vio(&mut r, "Namespace::<2>::new(2) is Ok, or rename_namespaces with wrong current names succeeded".into(), &a, &b, "-"); }
+				r.count("empty-name:editing API refuses first column / wrong from / wrong namespaces");
+			}
+			let (qa, qb) = if on_a { let Some(q) = poke_empty(qa, &mut a, level) else { r.count("empty-name:no such entry"); continue }; (q, qb) }
+				else { let Some(q) = poke_empty(qb, &mut b, level) else { r.count("empty-name:no such entry"); continue }; (qa, q) };
+			let mut d = vec![];
+			if from_quill(&qa, &mut d) != a || from_quill(&qb, &mut d) != b { r.notes.push("empty-name stream: the tree and its mirror differ after the edit; pair skipped".into()); continue; }
+			crumb(&format!("property C09 (Mappings::merge), empty-name stream\n--- A\n{}--- B\n{}", dump(&a), dump(&b)));
+			let (got, _) = impl_merge_q(&qa, &qb);
+			r.evaluations += 1;
+			r.count(&format!("empty-name:{} of {}:{}", ["namespace", "class", "field", "method", "parameter"][level], if on_a { "A" } else { "B" }, match &got { Ok(None) => "Err", Ok(Some(_)) => "Ok", Err(_) => "panic" }));
+			match &got {
+				Err(p) => vio(&mut r, format!("Mappings::merge panicked on an input with an empty name: {p}"), &a, &b, "panic"),
+				Ok(Some(m)) if has_empty_name(m) => vio(&mut r, "merge produced a mapping set that contains an empty name (the invariant of Names / Namespaces is broken in the result)".into(), &a, &b, &dump(m)),
+				_ => {}
+			}
+			if let Ok(g) = &got { r.case("empty-name", format!("CMergeRaw {} {} {}", g_mappings(&a), g_mappings(&b), gres(g.as_ref().map(g_mappings)))); }
 		}
 	}
 
